@@ -88,6 +88,102 @@ def real_to_sax(raw_tokens):
     return h.evs
 
 
+class Abort(Exception):
+    pass
+
+
+class AbortingHandler(RecHandler):
+    """a consumer that gives up (raises) after k events"""
+
+    def __init__(self, k):
+        RecHandler.__init__(self)
+        self.k = k
+
+    def __getattribute__(self, name):
+        v = RecHandler.__getattribute__(self, name)
+        if name in ("startElementNS", "endElementNS", "characters"):
+            def wrapped(*a):
+                if len(RecHandler.__getattribute__(self, "evs")) >= RecHandler.__getattribute__(self, "k"):
+                    raise Abort()
+                return v(*a)
+            return wrapped
+        return v
+
+
+def sax_sched_case(kind, name, k, A, B):
+    """to_sax on a real walker object under a schedule; returns (trace record, error).  Schedules:
+    partial  - the walker object was iterated for k tokens and dropped, then to_sax(walker)
+    aborted  - to_sax(walker) with a handler that raises after k events, then to_sax(walker) again
+    peek     - while to_sax consumes walk a, another walker (document B) is started and dropped between tokens
+    lockstep - the source of to_sax advances a second live walk (document B) one token per token"""
+    from html5lib.treeadapters import sax
+
+    def mk(doc):
+        d, frag, nsel, cont = doc
+        eroot, droot = wk.parse_both(d, frag, nsel, cont)
+        if kind == "etree":
+            from html5lib import treewalkers
+            return treewalkers.getTreeWalker("etree")(eroot), proj.proj_etree(eroot)
+        return wk.dom_walker(droot), proj.proj_dom(droot, merge=False)
+    wa, sub = mk(A)
+    wb, _ = mk(B)
+    seen = []
+
+    def source():
+        ib = iter(wb) if name == "lockstep" else None
+        for i, t in enumerate(wa):
+            seen.append(dict(t))
+            yield t
+            if name == "lockstep":
+                next(ib, None)
+            elif name == "peek" and i % 2 == k % 2:
+                it = iter(wb)
+                for _ in range(2 + (i + k) % 5):
+                    next(it, None)
+                del it
+    try:
+        if name == "partial":
+            it = iter(wa)
+            for _ in range(k):
+                next(it, None)
+            del it
+        elif name == "aborted":
+            try:
+                sax.to_sax(wa, AbortingHandler(4 + k))
+            except Abort:
+                pass
+        h = RecHandler()
+        try:
+            sax.to_sax(source(), h)
+        except Exception:
+            h.evs.append(ev("raise"))
+    except Exception as e:
+        return None, "%s: %s" % (type(e).__name__, e)
+    return {"sub": proj.flatten(sub), "stream": [ptok(t) for t in seen], "evs": h.evs}, None
+
+
+SAX_SCHEDULES = ("partial", "aborted", "peek", "lockstep", "partial")
+
+
+def sax_schedule_traces(ctx, n):
+    docs = [d for d in wk.documents(ctx.rng, 3 * n) if wk.parse_both(*d) is not None]
+    docs = [d for d in docs if proj.size(proj.proj_dom(wk.parse_both(*d)[1], merge=False)) <= 80][: 2 * n]
+    trs, metas = [], []
+    for i in range(len(docs) // 2):
+        A, B = docs[i], docs[len(docs) - 1 - i]
+        for kind in ("etree", "dom"):
+            name = SAX_SCHEDULES[(i + (kind == "dom")) % len(SAX_SCHEDULES)]
+            k = 2 + ctx.rng.randrange(9)
+            meta = {"kind": "sched", "walker": kind, "schedule": name, "k": k, "A": list(A), "B": list(B)}
+            tr, err = sax_sched_case(kind, name, k, A, B)
+            if err:
+                ctx.violation("to_sax / %s walker raised under schedule %s: %s" % (kind, name, err), meta)
+                continue
+            trs.append(tr)
+            metas.append(meta)
+    return trs, metas
+
+
 def cfg_sax(maxnodes, alphabet, unmerged, voidkids, export, checkprop, defects):
     inv = ["ThmExport"] + (["ThmSaxOK", "ThmSaxTree"] if checkprop else ["ThmSaxExplained"])
     return ("INIT Init\nNEXT Next\nCHECK_DEADLOCK FALSE\n" + "".join("INVARIANT %s\n" % i for i in inv) +
@@ -212,6 +308,15 @@ def run(ctx):
             ctx.violation("listed deviation does not make any theorem fail at model level", {"kind": "witness"})
     ctx.exhaustive = True
     trs, metas = traces(ctx, 500 if q else 4000, 120 if q else 1000, [150] if q else [150, 400])
+    t2, m2 = sax_schedule_traces(ctx, 60 if q else 400)
+    ctx.notes["to_sax_schedule_runs"] = len(t2)
+    trs += t2
+    metas += m2
+    # one-shot sources, lockstep, abandoned consumption of the adapter's INPUT stream (harness/streams.py)
+    from .. import streams
+    toks = [[utok(t) for t in x["stream"]] for x in trs[:: max(1, len(trs) // (40 if q else 200))]]
+    streams.check(ctx, "to_sax", lambda src: real_to_sax(src), toks, case=lambda i: {"stream": [ptok(t) for t in toks[i]]})
+    ctx.traces += len(toks)
     ctx.notes["to_sax_runs"] = len(trs)
     if trs:
         ctx.sample({"code_to_spec": metas[0].get("source", "hand-built"),
@@ -250,6 +355,16 @@ def replay(case):
         got = real_to_sax([utok(t) for t in c["stream"]])
         if got != c["expected"]:
             print("VIOLATION property=C19 replay=- (to_sax events differ from ToSax)")
+            return 1
+    elif c.get("kind") == "sched":
+        tr, err = sax_sched_case(c["walker"], c["schedule"], c["k"], tuple(c["A"]), tuple(c["B"]))
+        if err:
+            print("VIOLATION property=C19 replay=- (raised under schedule: %s)" % err)
+            return 1
+        rej = [r for r in core.validate_traces(ctx, "Trace_Sax", [tr], "replay", consts=consts)
+               if r[1]["v"] not in ("finding", "accept:nonparsed")]
+        if rej:
+            print("VIOLATION property=C19 replay=- (%s)" % rej[0][1])
             return 1
     elif c.get("kind") == "trace":
         if "source" in c:
